@@ -56,6 +56,8 @@ pub fn run(ctx: &Ctx, reg: &Registry) -> i32 {
                 check(&mut acc, reg, s, &case, Source::Ov, Script::Break, false);
                 check(&mut acc, reg, s, &case, Source::Ov, Script::Bits(ctx.seed ^ i), false);
                 check(&mut acc, reg, s, &case, Source::Ov, Script::Coin(ctx.seed ^ i), false);
+                let pols = policies();
+                check(&mut acc, reg, s, &case, Source::Ov, pols[(i as usize) % pols.len()].clone(), false);
                 if case.payload.json_representable() {
                     check(&mut acc, reg, s, &case, Source::Json, Script::Continue, true);
                 }
